@@ -100,3 +100,18 @@ pub mod capture {
         SYMBOLS.lock().unwrap().clear();
     }
 }
+
+/// Lower a script and run its `main` function through the LIR evaluator
+/// (`lir::eval::eval`) with scalar arguments. Compile errors are returned as
+/// `Err`; a panic of the evaluator (its "loud stop") propagates to the caller.
+pub fn eval_main(
+    rt: &crate::Runtime<crate::NoCtx>,
+    file: crate::FileTree,
+    args: Vec<IrValue>,
+) -> Result<Option<IrValue>, String> {
+    let parsed = file.parse().map_err(|e| e.to_string())?;
+    let checked = parsed.typecheck(rt).map_err(|e| e.to_string())?;
+    let lowered = checked.lower_to_mir().lower_to_lir();
+    let mut mem = Memory::new();
+    Ok(lowered.eval(&mut mem, IrValue::Pointer(0), args))
+}
